@@ -1,28 +1,31 @@
 """R-DUAL (C12): accept and reject are mirror images under ADD<->DEL; writers agree."""
-from .prog import (AnalysisBroken, key, strip, walk, const_value, enum_name, edpe_blocks, block_nodes)
+from .prog import (AnalysisBroken, key, strip, walk, const_value, enum_name, edpe_blocks, block_nodes, tok_dkey, tok_param, single_assignment_locals)
 
 
 def _swap(name):
     return name.replace("_ADD", "_@@").replace("_DEL", "_ADD").replace("_@@", "_DEL")
 
 
-def _switch_block(f, dkey="t->type"):
-    """CFG block that ends in the (outermost) switch on dkey."""
+def _switch_block(f, dkey=None):
+    """CFG block that ends in the (outermost) switch on dkey (or on a local alias of it); the function entry if the
+    dispatch is written as an if-chain."""
+    dkey = dkey or tok_dkey(f)
+    al = {dkey} | {nm for nm, init in single_assignment_locals(f).items() if key(init) == dkey}
     best = None
     for b in f.cfg.blocks.values():
         if b.tk == "SwitchStmt" and b.term is not None and b.term >= 0:
             t = f.nodes.get(b.term)
-            if t is not None and key(t["c"][0]) == dkey:
+            if t is not None and key(t["c"][0]) in al:
                 if best is None or t["l"] < best[1]:
                     best = (b.id, t["l"])
     if best is None:
-        raise AnalysisBroken("%s: no switch on %s" % (f.name, dkey))
+        return f.cfg.entry
     return best[0]
 
 
 def _class(f, v, prefix):
     """Effect class of handler f on critic type v."""
-    blocks = edpe_blocks(f, "t->type", v)
+    blocks = edpe_blocks(f, tok_dkey(f), v)
     calls = []
     for n in block_nodes(f, blocks):
         if n["k"] == "CallExpr" and n.get("callee"):
@@ -38,7 +41,7 @@ def _class(f, v, prefix):
     for n in block_nodes(f, blocks):
         if n["k"] == "CallExpr" and n["i"] in pos:
             call_blocks.add(pos[n["i"]][0])
-    free_path = cfg.exit in edpe_blocks(f, "t->type", v, blocked=call_blocks)
+    free_path = cfg.exit in edpe_blocks(f, tok_dkey(f), v, blocked=call_blocks)
     return (tuple(sorted(set(calls))), free_path)
 
 
@@ -52,8 +55,10 @@ def r_dual(P, chk):
     byname = dict(cms)
     # types the tokenizer / pairing can produce
     produced = set()
-    for fn in ("mmd_critic_tokenize_string", "critic_parse_substring"):
-        f = P.func(fn, "critic_markup.c")
+    cu = P.units.get("critic_markup.c")
+    if cu is None:
+        raise AnalysisBroken("critic_markup.c is gone")
+    for f in cu.funcs.values():
         for c in f.calls():
             if c.get("callee") in ("trie_insert", "token_pair_engine_add_pairing", "token_new"):
                 for a in c["c"][1:]:
@@ -88,23 +93,26 @@ def r_dual(P, chk):
         chk.obligation(rid, "produced type %s has a defined class in both tables" % name, ok, nontrivial=False)
     # back-to-front iteration
     n_loops = 0
-    for fn in ("accept_token_tree", "accept_token_tree_sub", "reject_token_tree", "reject_token_tree_sub"):
-        f = P.func(fn, "critic_markup.c")
+    for f in cu.funcs.values():
+        fn = f.name
+        if not (fn.startswith("accept_") or fn.startswith("reject_")):
+            continue
+        tp = tok_param(f)
         for w in f.walk():
-            if w["k"] != "WhileStmt":
+            if w["k"] not in ("WhileStmt", "ForStmt", "DoStmt"):
                 continue
-            body = w["c"][1]
-            adv = [key(x["c"][1]) for x in walk(body) if x["k"] == "BinaryOperator" and x["op"] == "=" and key(x["c"][0]) == "t"]
+            body = w["c"][1] if w["k"] == "WhileStmt" else (w["c"][3] if w["k"] == "ForStmt" else w["c"][0])
+            adv = [key(x["c"][1]) for x in walk(w) if x["k"] == "BinaryOperator" and x["op"] == "=" and key(x["c"][0]) == tp]
             acts = [x for x in walk(body) if x["k"] == "CallExpr" and (x.get("callee") or "").split("_")[0] in ("accept", "reject", "d")]
             if not acts:
                 continue
             n_loops += 1
-            ok = bool(adv) and all(a == "t->prev" for a in adv)
-            chk.obligation(rid, "%s %s: loop that edits the text walks t = t->prev (earlier offsets stay valid)" % (f.where(w), fn), ok)
+            ok = bool(adv) and all(a == tp + "->prev" for a in adv)
+            chk.obligation(rid, "%s %s: loop that edits the text walks %s = %s->prev (earlier offsets stay valid)" % (f.where(w), fn, tp, tp), ok)
             if not ok:
                 chk.violation(rid, "dual:direction:%s" % fn, f.where(w), "%s edits the string while advancing with %s: offsets of "
                               "tokens still to be processed become stale" % (fn, adv))
-    chk.floor(rid, n_loops, 5, "editing loops")
+    chk.floor(rid, n_loops, 4, "editing loops")
     for fn, tree in (("mmd_critic_markup_accept_range", "accept_token_tree"), ("mmd_critic_markup_reject_range", "reject_token_tree")):
         f = P.func(fn, "critic_markup.c")
         cs = list(f.calls(tree))
@@ -122,6 +130,8 @@ def r_dual(P, chk):
             for a in f.ancestors(c):
                 if a["k"] in ("IfStmt", "WhileStmt"):
                     conds.append(key(a["c"][0]))
+                elif a["k"] == "ForStmt" and a["c"][1] is not None:
+                    conds.append(key(a["c"][1]))
             out.append(conds)
         return out
     div = byname.get("CM_SUB_DIV")
@@ -152,12 +162,12 @@ def r_dual(P, chk):
                         return bool(bits & b)
                 return None
             for pt in ptypes:
-                blocks = edpe_blocks(f, "t->type", tt[pt], extra_decide=decide)
+                blocks = edpe_blocks(f, tok_dkey(f), tt[pt], extra_decide=decide)
                 pos = f.cfg.positions()
                 emit_blocks = {pos[n["i"]][0] for n in block_nodes(f, blocks) if n["k"] == "CallExpr" and n["i"] in pos
                                and (n.get("callee") or "").startswith("mmd_export_token_tree")}
                 # must-emit: no path to the exit that avoids exporting the children
-                avoid = edpe_blocks(f, "t->type", tt[pt], extra_decide=decide, blocked=emit_blocks, start=_switch_block(f))
+                avoid = edpe_blocks(f, tok_dkey(f), tt[pt], extra_decide=decide, blocked=emit_blocks, start=_switch_block(f))
                 table[(w, mode, pt)] = bool(emit_blocks) and f.cfg.exit not in avoid
     for pt in ptypes:
         for mode in modes:
